@@ -42,7 +42,7 @@ An automated checker derived from the property text has already been confronted 
 
 Deliver, inside %(wt)s:
  - the change itself, left UNCOMMITTED in the working tree (only files under pox/);
- - DEMO.py at the worktree root: a self-contained script (run as `cd %(wt)s && /venv/bin/python DEMO.py`) that exits 0 on the ORIGINAL tree and exits 1 on your CHANGED tree, demonstrating the violation of the property (verify both: use `git stash` / `git stash pop` to switch);  it should finish within a minute and print what it observed;
+ - DEMO.py at the worktree root: a self-contained script (run as `cd %(wt)s && /venv/bin/python DEMO.py`) that exits 0 on the ORIGINAL tree and exits 1 on your CHANGED tree, demonstrating the violation of the property (verify both; to switch trees use `git diff > /tmp/seed/%(id)s.patch; git apply -R /tmp/seed/%(id)s.patch; ...; git apply /tmp/seed/%(id)s.patch` - NEVER `git stash`, the stash is shared with other worktrees of this repository);  it should finish within a minute and print what it observed;
  - SEED_NOTES.md at the worktree root: the change, why it breaks the property (which clause), what exactly it needs in order to manifest, and why ordinary use and the existing tests do not expose it.
 Do not commit anything.  When done, reply with a three-line summary: file(s) changed, mechanism, trigger.
 """ % dict(wt=wt, id=pid, title=p['title'], statement=p['statement'],
